@@ -332,7 +332,14 @@ fn c14_public_case(fx: &PubFixture, m: usize, rng: &mut Rng, t: &mut Tally) {
             i.pis[idx] &= 0xFFFF_FFFF;
         }
     }
-    let tampered: Vec<bool> = inners.iter().map(|_| rng.chance(1, 14)).collect();
+    let mut tampered: Vec<bool> = inners.iter().map(|_| rng.chance(1, 14)).collect();
+    // an inner carrying exactly the padding template's public inputs: genuine copy or invalid proof
+    if inners.len() >= 2 && rng.chance(1, 7) {
+        let i = rng.usize(inners.len());
+        inners[i] = fx.template.clone();
+        tampered[i] = rng.chance(2, 3);
+        t.class(if tampered[i] { "public|template-statement|invalid-proof" } else { "public|template-statement|genuine-copy" });
+    }
     let proofs: Result<Vec<Proof>, String> = inners.iter().zip(tampered.iter()).map(|(i, tm)| if *tm { fx.inner.tampered(&i.pis, rng) } else { fx.inner.prove(&i.pis) }).collect();
     let proofs = match proofs {
         Ok(p) => p,
@@ -429,7 +436,17 @@ pub fn run_c14(ctx: &Ctx) {
         };
         for c in 0..n_priv.div_ceil(workers) {
             let n = [1usize, 2, 2, 3, 3, 4][(c + wi) % 6];
-            let v = gen_supplied(&mut rng, n);
+            let mut v = gen_supplied(&mut rng, n);
+            // a supplied proof carrying exactly the padding template's public inputs: a genuine copy
+            // (valid dummy) or an invalid proof hiding behind the template's statement
+            if !v.is_empty() && rng.chance(1, 7) {
+                let i = rng.usize(v.len());
+                let forged = rng.chance(2, 3);
+                if v.iter().enumerate().any(|(j, s)| j != i && !s.stmt.is_dummy()) || v.len() == 1 {
+                    v[i] = Supplied { stmt: fx.template.clone(), tampered: forged };
+                    t.class(if forged { "private|template-statement|invalid-proof" } else { "private|template-statement|genuine-copy" });
+                }
+            }
             c14_private_case(&fx, n, &v, &mut rng, t, known);
             if c < 1 {
                 t.sample(json!({"prover": "private", "case": supplied_json(n, &v)}));
